@@ -447,4 +447,486 @@ theorem parseU32_showNat (n : Nat) (h : n ≤ 4294967295) : parseU32? (showNat n
     | cons => rfl
   simp [h1, all_isDigit_of (showNat_digits _), digitsVal_showNat, h]
 
+theorem token_digit (c : Char) (cs : List Char) (p : Pos) (h : isDigit c = true) :
+    token (c :: cs) p = (number c cs (adv c p)).map some := by
+  have hs : c ∉ tokenStarters := by
+    intro hc
+    have : tokenStarters.all (fun c => !isDigit c) = true := by decide
+    have := List.all_eq_true.mp this c hc
+    simp [h] at this
+  simp only [tokenStarters, List.mem_cons, List.not_mem_nil, or_false, not_or] at hs
+  rw [token.eq_def]
+  simp [hs, h]
+
+theorem token_sign_num (s : Char) (hs : s = '+' ∨ s = '-') (d : Char) (cs : List Char) (p : Pos)
+    (hd : isDigit d = true ∨ d = '.') :
+    token (s :: d :: cs) p = (number s (d :: cs) (adv s p)).map some := by
+  rw [token.eq_def]
+  rcases hs with rfl | rfl <;> rcases hd with hd | hd <;> simp [hd]
+
+theorem delim_not {c : Char} (h : isDelimiter c = true) :
+    c ≠ 'e' ∧ c ≠ '.' ∧ c ≠ '/' ∧ isDigit c = false := by
+  refine ⟨?_, ?_, ?_, ?_⟩
+  · rintro rfl; revert h; decide
+  · rintro rfl; revert h; decide
+  · rintro rfl; revert h; decide
+  · cases hd : isDigit c with
+    | false => rfl
+    | true => rw [isDelimiter_of_not_mem (isDigit_ns hd)] at h; cases h
+
+theorem stopsAt_digit_of_delim {rest : List Char} (h : startsDelim rest = true) :
+    stopsAt isDigit rest = true :=
+  stopsAt_of_startsDelim _ (fun _ => isDigit_ns) h
+
+theorem number_int (first : Char) (ds rest : List Char) (p : Pos) (i : Int)
+    (hds : ∀ c ∈ ds, isDigit c = true) (hd : startsDelim rest = true)
+    (hp : parseI32? (first :: ds) = some i) :
+    number first (ds ++ rest) p = .ok (.prim (.int i), rest, advs ds p) := by
+  unfold number
+  rw [takeRun_append isDigit ds rest p [] hds (stopsAt_digit_of_delim hd)]
+  cases rest with
+  | nil => simp [integerToken, hp]
+  | cons c r =>
+    simp only [startsDelim] at hd
+    obtain ⟨h1, h2, h3, -⟩ := delim_not hd
+    simp [h1, h2, h3, testDelimiter, hd, integerToken, hp, bind, Except.bind]
+
+theorem number_rat (first : Char) (ds den rest : List Char) (p : Pos) (a : Int) (b : Nat)
+    (hds : ∀ c ∈ ds, isDigit c = true) (hden : ∀ c ∈ den, isDigit c = true)
+    (hd : startsDelim rest = true)
+    (hp : parseI32? (first :: ds) = some a) (hq : parseU32? den = some b) (hb : b ≠ 0) :
+    number first (ds ++ '/' :: (den ++ rest)) p
+      = .ok (.prim (.rat a b), rest, advs (ds ++ '/' :: den) p) := by
+  unfold number
+  rw [takeRun_append isDigit ds _ p [] hds (by simp [stopsAt]; decide)]
+  have h1 : ('/' : Char) ≠ 'e' := by decide
+  have h2 : ('/' : Char) ≠ '.' := by decide
+  simp only [List.reverse_nil, List.nil_append, h1, h2, if_false, if_true]
+  rw [takeRun_append isDigit den rest _ [] hden (stopsAt_digit_of_delim hd)]
+  simp only [List.reverse_nil, List.nil_append, endOfToken_eq, hd, if_true, hp, hq]
+  cases b with
+  | zero => exact absurd rfl hb
+  | succ b => simp [bind, Except.bind, pure, Except.pure, advs_append]
+
+/-- a sign followed by a digit, or a digit: the texts on which `token` calls `number` -/
+def NumStart (first : Char) (ds : List Char) : Prop :=
+  isDigit first = true ∨ ((first = '+' ∨ first = '-') ∧ ∃ d ds', ds = d :: ds' ∧ isDigit d = true)
+
+theorem token_numStart {first : Char} {ds : List Char} (h : NumStart first ds)
+    (more : List Char) (p : Pos) :
+    token (first :: (ds ++ more)) p = (number first (ds ++ more) (adv first p)).map some := by
+  rcases h with h | ⟨hs, d, ds', rfl, hd⟩
+  · exact token_digit _ _ _ h
+  · exact token_sign_num _ hs _ _ _ (Or.inl hd)
+
+theorem showInt_shape (i : Int) : ∃ first ds, showInt i = first :: ds ∧
+    (∀ c ∈ ds, isDigit c = true) ∧ NumStart first ds := by
+  unfold showInt
+  split
+  · cases hh : showNat i.natAbs with
+    | nil => exact absurd hh (showNat_ne_nil _)
+    | cons d ds =>
+      have hall := showNat_digits i.natAbs
+      rw [hh] at hall
+      exact ⟨'-', d :: ds, rfl, hall, Or.inr ⟨Or.inr rfl, d, ds, rfl, hall d (by simp)⟩⟩
+  · cases hh : showNat i.natAbs with
+    | nil => exact absurd hh (showNat_ne_nil _)
+    | cons d ds =>
+      have hall := showNat_digits i.natAbs
+      rw [hh] at hall
+      exact ⟨d, ds, rfl, fun c hc => hall c (by simp [hc]), Or.inl (hall d (by simp))⟩
+
+theorem token_int (i : Int) (rest : List Char) (p : Pos) (h : fitsI32 i = true)
+    (hd : startsDelim rest = true) :
+    token (showInt i ++ rest) p = .ok (some (.prim (.int i), rest, advs (showInt i) p)) := by
+  obtain ⟨first, ds, h1, h2, h3⟩ := showInt_shape i
+  have hp := parseI32_showInt i h
+  rw [h1] at hp ⊢
+  rw [List.cons_append, token_numStart h3, number_int first ds rest _ i h2 hd hp]
+  rfl
+
+theorem token_rat (n : Int) (d : Nat) (rest : List Char) (p : Pos) (h : fitsI32 n = true)
+    (hd0 : 0 < d) (hd1 : d ≤ 4294967295) (hd : startsDelim rest = true) :
+    token (showInt n ++ '/' :: showNat d ++ rest) p
+      = .ok (some (.prim (.rat n d), rest, advs (showInt n ++ '/' :: showNat d) p)) := by
+  obtain ⟨first, ds, h1, h2, h3⟩ := showInt_shape n
+  have hp := parseI32_showInt n h
+  rw [h1] at hp ⊢
+  simp only [List.cons_append, List.append_assoc]
+  rw [token_numStart h3, number_rat first ds (showNat d) rest _ n d h2 (showNat_digits d) hd hp
+    (parseU32_showNat d hd1) (by omega)]
+  rfl
+
+/-! ## reals -/
+
+theorem takeWhile_append_stop (f : Char → Bool) (ds rest : List Char)
+    (hds : ∀ c ∈ ds, f c = true) (hs : stopsAt f rest = true) :
+    (ds ++ rest).takeWhile f = ds ∧ (ds ++ rest).dropWhile f = rest := by
+  have := takeRun_append f ds rest (1, 1) [] hds hs
+  rw [takeRun_spec] at this
+  simp only [List.reverse_nil, List.nil_append, Prod.mk.injEq] at this
+  exact ⟨this.1, this.2.1⟩
+
+/-- exponent part `e sign? digits+` -/
+def ExpOK : Option (List Char × List Char) → Prop
+  | none => True
+  | some (s, d) => isSign s = true ∧ d ≠ [] ∧ ∀ c ∈ d, isDigit c = true
+
+def expTextOf : Option (List Char × List Char) → List Char
+  | none => []
+  | some (s, d) => 'e' :: (s ++ d)
+
+theorem isSign_cases {s : List Char} (h : isSign s = true) : s = [] ∨ s = ['+'] ∨ s = ['-'] := by
+  simpa [isSign, or_assoc] using h
+
+theorem numberSuffix_fwd (lit s d rest : List Char) (p : Pos) (hs : isSign s = true)
+    (hd0 : d ≠ []) (hd : ∀ c ∈ d, isDigit c = true) (hstop : stopsAt isDigit rest = true) :
+    numberSuffix lit ('e' :: (s ++ (d ++ rest))) p
+      = (lit ++ 'e' :: (s ++ d), rest, advs ('e' :: (s ++ d)) p) := by
+  unfold numberSuffix
+  rcases isSign_cases hs with rfl | rfl | rfl
+  · cases d with
+    | nil => exact absurd rfl hd0
+    | cons x d' =>
+      have hx : isDigit x = true := hd x (by simp)
+      have h1 : x ≠ '+' := by rintro rfl; revert hx; decide
+      have h2 : x ≠ '-' := by rintro rfl; revert hx; decide
+      have := takeRun_append isDigit (x :: d') rest (adv 'e' p) [] hd hstop
+      simp only [List.cons_append] at this
+      simp [h1, h2, this]
+  · have := takeRun_append isDigit d rest (adv '+' (adv 'e' p)) [] hd hstop
+    simp [this]
+  · have := takeRun_append isDigit d rest (adv '-' (adv 'e' p)) [] hd hstop
+    simp [this]
+
+theorem stopsAt_digit_exp (e : Option (List Char × List Char)) (rest : List Char)
+    (hd : startsDelim rest = true) : stopsAt isDigit (expTextOf e ++ rest) = true := by
+  cases e with
+  | none => exact stopsAt_digit_of_delim hd
+  | some sd => obtain ⟨s, d⟩ := sd; simp [expTextOf, stopsAt]; decide
+
+theorem real_fwd (lit f : List Char) (e : Option (List Char × List Char)) (rest : List Char)
+    (p : Pos) (hf : ∀ c ∈ f, isDigit c = true) (he : ExpOK e) (hd : startsDelim rest = true) :
+    real lit ('.' :: (f ++ (expTextOf e ++ rest))) p
+      = .ok (lit ++ '.' :: (f ++ expTextOf e), rest, advs ('.' :: (f ++ expTextOf e)) p) := by
+  unfold real
+  cases f with
+  | nil =>
+    cases e with
+    | none =>
+      simp only [expTextOf, List.nil_append, List.append_nil]
+      cases rest with
+      | nil => rfl
+      | cons c r =>
+        simp only [startsDelim] at hd
+        obtain ⟨h1, -, -, h4⟩ := delim_not hd
+        simp [h1, h4, testDelimiter, hd, bind, Except.bind, pure, Except.pure]
+    | some sd =>
+      obtain ⟨s, d⟩ := sd
+      obtain ⟨h1, h2, h3⟩ := he
+      simp only [expTextOf, List.nil_append, List.cons_append, List.append_assoc, if_true]
+      rw [numberSuffix_fwd _ s d rest _ h1 h2 h3 (stopsAt_digit_of_delim hd)]
+      simp [endOfToken_eq, hd, bind, Except.bind, pure, Except.pure]
+  | cons x f' =>
+    have hx : isDigit x = true := hf x (by simp)
+    have hxe : x ≠ 'e' := by rintro rfl; revert hx; decide
+    have := takeRun_append isDigit (x :: f') (expTextOf e ++ rest) (adv '.' p) [] hf
+      (stopsAt_digit_exp e rest hd)
+    simp only [List.cons_append] at this
+    simp only [List.cons_append, hxe, if_false, hx, if_true, this]
+    cases e with
+    | none =>
+      simp only [expTextOf, List.nil_append, List.append_nil]
+      cases rest with
+      | nil => simp
+      | cons c r =>
+        simp only [startsDelim] at hd
+        obtain ⟨h1, -, -, h4⟩ := delim_not hd
+        simp [h1, testDelimiter, hd, bind, Except.bind, pure, Except.pure]
+    | some sd =>
+      obtain ⟨s, d⟩ := sd
+      obtain ⟨h1, h2, h3⟩ := he
+      simp only [expTextOf, List.cons_append, List.append_assoc, if_true]
+      rw [numberSuffix_fwd _ s d rest _ h1 h2 h3 (stopsAt_digit_of_delim hd)]
+      simp [endOfToken_eq, hd, bind, Except.bind, pure, Except.pure, advs_append]
+
+def fracTextOf : Option (List Char) → List Char
+  | none => []
+  | some f => '.' :: f
+
+def FracOK : Option (List Char) → Prop
+  | none => True
+  | some f => ∀ c ∈ f, isDigit c = true
+
+theorem number_real (first : Char) (ds : List Char) (fr : Option (List Char))
+    (e : Option (List Char × List Char)) (rest : List Char) (p : Pos)
+    (hds : ∀ c ∈ ds, isDigit c = true) (hfr : FracOK fr) (he : ExpOK e)
+    (hsome : fr.isSome = true ∨ e.isSome = true) (hd : startsDelim rest = true)
+    (hv : validReal (first :: (ds ++ (fracTextOf fr ++ expTextOf e))) = true) :
+    number first (ds ++ (fracTextOf fr ++ (expTextOf e ++ rest))) p
+      = .ok (.prim (.real (String.ofList (first :: (ds ++ (fracTextOf fr ++ expTextOf e))))),
+          rest, advs (ds ++ (fracTextOf fr ++ expTextOf e)) p) := by
+  unfold number
+  cases fr with
+  | some f =>
+    rw [takeRun_append isDigit ds _ p [] hds (by simp [fracTextOf, stopsAt]; decide)]
+    have h1 : ('.' : Char) ≠ 'e' := by decide
+    simp only [fracTextOf, List.cons_append, List.reverse_nil, List.nil_append, h1, if_false,
+      if_true]
+    rw [real_fwd _ f e rest _ hfr he hd]
+    simp only [fracTextOf, List.cons_append, List.append_assoc] at hv
+    simp [bind, Except.bind, realToken, hv, advs_append]
+  | none =>
+    cases e with
+    | none => simp at hsome
+    | some sd =>
+      obtain ⟨s, d⟩ := sd
+      obtain ⟨h1, h2, h3⟩ := he
+      rw [takeRun_append isDigit ds _ p [] hds (by simp [fracTextOf, expTextOf, stopsAt]; decide)]
+      simp only [fracTextOf, expTextOf, List.cons_append, List.reverse_nil, List.nil_append,
+        List.append_assoc, if_true]
+      rw [numberSuffix_fwd _ s d rest _ h1 h2 h3 (stopsAt_digit_of_delim hd)]
+      simp only [fracTextOf, expTextOf, List.cons_append, List.nil_append] at hv
+      simp [endOfToken_eq, hd, bind, Except.bind, realToken, hv, advs_append]
+
+/-- `validReal` after the sign has been removed -/
+def validBody (t : List Char) : Bool :=
+  let ip := t.takeWhile isDigit
+  let t := t.dropWhile isDigit
+  let (fp, t) := match t with
+    | '.' :: r => (r.takeWhile isDigit, r.dropWhile isDigit)
+    | r => ([], r)
+  let mantOk := !(ip.isEmpty && fp.isEmpty)
+  match t with
+  | [] => mantOk
+  | 'e' :: r =>
+    let r := match r with
+      | '-' :: r' => r'
+      | '+' :: r' => r'
+      | r' => r'
+    mantOk && !r.isEmpty && r.all isDigit
+  | _ => false
+
+theorem validReal_eq (text : List Char) : validReal text = validBody (match text with
+    | '-' :: r => r
+    | '+' :: r => r
+    | r => r) := rfl
+
+theorem validBody_fwd (x : Char) (ip : List Char) (fr : Option (List Char))
+    (e : Option (List Char × List Char))
+    (hip : ∀ c ∈ x :: ip, isDigit c = true) (hfr : FracOK fr) (he : ExpOK e) :
+    validBody (x :: ip ++ (fracTextOf fr ++ expTextOf e)) = true := by
+  unfold validBody
+  have hstop : stopsAt isDigit (fracTextOf fr ++ expTextOf e) = true := by
+    cases fr with
+    | some f => simp [fracTextOf, stopsAt]; decide
+    | none =>
+      cases e with
+      | none => rfl
+      | some sd => simp [fracTextOf, expTextOf, stopsAt]; decide
+  obtain ⟨h1, h2⟩ := takeWhile_append_stop isDigit (x :: ip) _ hip hstop
+  rw [h1, h2]
+  have hexp : ∀ (b : Bool), (match expTextOf e with
+      | [] => b
+      | 'e' :: r =>
+        let r := match r with
+          | '-' :: r' => r'
+          | '+' :: r' => r'
+          | r' => r'
+        b && !r.isEmpty && r.all isDigit
+      | _ => false) = b := by
+    intro b
+    cases e with
+    | none => rfl
+    | some sd =>
+      obtain ⟨s, d⟩ := sd
+      obtain ⟨g1, g2, g3⟩ := he
+      cases d with
+      | nil => exact absurd rfl g2
+      | cons y d' =>
+        have hy : isDigit y = true := g3 y (by simp)
+        have hy1 : y ≠ '-' := by rintro rfl; revert hy; decide
+        have hy2 : y ≠ '+' := by rintro rfl; revert hy; decide
+        have hall : (y :: d').all isDigit = true := all_isDigit_of g3
+        rcases isSign_cases g1 with rfl | rfl | rfl
+        · simp only [expTextOf, List.nil_append]
+          have : (match y :: d' with
+              | '-' :: r' => r'
+              | '+' :: r' => r'
+              | r' => r') = y :: d' := by
+            split
+            · rename_i heq; simp at heq; exact absurd heq.1 hy1
+            · rename_i heq; simp at heq; exact absurd heq.1 hy2
+            · rfl
+          simp only [this, hall]; simp
+        · simp only [expTextOf, List.cons_append, List.nil_append, hall]; simp
+        · simp only [expTextOf, List.cons_append, List.nil_append, hall]; simp
+  cases fr with
+  | none =>
+    simp only [fracTextOf, List.nil_append]
+    have : (match expTextOf e with
+        | '.' :: r => (r.takeWhile isDigit, r.dropWhile isDigit)
+        | r => ([], r)) = ([], expTextOf e) := by
+      cases e with
+      | none => rfl
+      | some sd => rfl
+    rw [this]
+    simp only
+    rw [hexp]; simp
+  | some f =>
+    have hst2 : stopsAt isDigit (expTextOf e) = true := by
+      cases e with
+      | none => rfl
+      | some sd => simp [expTextOf, stopsAt]; decide
+    obtain ⟨k1, k2⟩ := takeWhile_append_stop isDigit f _ hfr hst2
+    simp only [fracTextOf, List.cons_append, k1, k2]
+    rw [hexp]; simp
+
+theorem RealLit.wf_inv {r : RealLit} (h : r.wf = true) :
+    isSign r.sign = true ∧ r.ip ≠ [] ∧ (∀ c ∈ r.ip, isDigit c = true) ∧ FracOK r.frac ∧
+      ExpOK r.exp ∧ (r.frac.isSome = true ∨ r.exp.isSome = true) ∧
+      r.fracText = fracTextOf r.frac ∧ r.expText = expTextOf r.exp := by
+  simp only [RealLit.wf, Bool.and_eq_true, Bool.not_eq_true', Bool.or_eq_true] at h
+  obtain ⟨⟨⟨⟨⟨h1, h2⟩, h3⟩, h4⟩, h5⟩, h6⟩ := h
+  refine ⟨h1, by intro e; simp [e] at h2, by simpa using h3, ?_, ?_, h6, ?_, ?_⟩
+  · cases hf : r.frac with
+    | none => trivial
+    | some f => rw [hf] at h4; simpa [FracOK] using h4
+  · cases he : r.exp with
+    | none => trivial
+    | some sd =>
+      obtain ⟨s, d⟩ := sd
+      rw [he] at h5
+      simp only [Bool.and_eq_true, Bool.not_eq_true'] at h5
+      exact ⟨h5.1.1, by intro e; simp [e] at h5, by simpa using h5.2⟩
+  · unfold RealLit.fracText; cases r.frac <;> rfl
+  · unfold RealLit.expText; cases r.exp with
+    | none => rfl
+    | some sd => rfl
+
+theorem token_real (r : RealLit) (rest : List Char) (p : Pos) (h : r.wf = true)
+    (hd : startsDelim rest = true) :
+    token (r.text ++ rest) p
+      = .ok (some (.prim (.real (String.ofList r.text)), rest, advs r.text p)) := by
+  obtain ⟨h1, h2, h3, h4, h5, h6, h7, h8⟩ := RealLit.wf_inv h
+  unfold RealLit.text
+  rw [h7, h8]
+  cases hip : r.ip with
+  | nil => exact absurd hip h2
+  | cons x ip =>
+    rw [hip] at h3
+    have hx : isDigit x = true := h3 x (by simp)
+    have hx1 : x ≠ '-' := by rintro rfl; revert hx; decide
+    have hx2 : x ≠ '+' := by rintro rfl; revert hx; decide
+    have hbody := validBody_fwd x ip r.frac r.exp h3 h4 h5
+    rcases isSign_cases h1 with hs | hs | hs <;> rw [hs]
+    · have hv : validReal (x :: (ip ++ (fracTextOf r.frac ++ expTextOf r.exp))) = true := by
+        rw [validReal_eq]
+        split
+        · rename_i heq; simp at heq; exact absurd heq.1 hx1
+        · rename_i heq; simp at heq; exact absurd heq.1 hx2
+        · exact hbody
+      have hns : NumStart x ip := Or.inl hx
+      simp only [List.nil_append, List.cons_append, List.append_assoc]
+      rw [token_numStart hns, number_real x ip r.frac r.exp rest _
+        (fun c hc => h3 c (by simp [hc])) h4 h5 h6 hd hv]
+      rfl
+    · have hv : validReal ('+' :: (x :: ip ++ (fracTextOf r.frac ++ expTextOf r.exp))) = true := by
+        rw [validReal_eq]; exact hbody
+      have hns : NumStart '+' (x :: ip) := Or.inr ⟨Or.inl rfl, x, ip, rfl, hx⟩
+      simp only [List.cons_append, List.nil_append, List.append_assoc]
+      have := number_real '+' (x :: ip) r.frac r.exp rest (adv '+' p) h3 h4 h5 h6 hd hv
+      simp only [List.cons_append, List.append_assoc] at this
+      have ht := token_numStart hns (fracTextOf r.frac ++ (expTextOf r.exp ++ rest)) p
+      simp only [List.cons_append, List.append_assoc] at ht
+      rw [ht, this]
+      rfl
+    · have hv : validReal ('-' :: (x :: ip ++ (fracTextOf r.frac ++ expTextOf r.exp))) = true := by
+        rw [validReal_eq]; exact hbody
+      have hns : NumStart '-' (x :: ip) := Or.inr ⟨Or.inr rfl, x, ip, rfl, hx⟩
+      simp only [List.cons_append, List.nil_append, List.append_assoc]
+      have := number_real '-' (x :: ip) r.frac r.exp rest (adv '-' p) h3 h4 h5 h6 hd hv
+      simp only [List.cons_append, List.append_assoc] at this
+      have ht := token_numStart hns (fracTextOf r.frac ++ (expTextOf r.exp ++ rest)) p
+      simp only [List.cons_append, List.append_assoc] at ht
+      rw [ht, this]
+      rfl
+
+/-- every supported token, written as `renderTok` writes it and followed by something that ends
+it, is read back as itself -/
+theorem token_render (t : Token) (rest : List Char) (p : Pos) (hs : SupportedTok t)
+    (hf : followOK t rest = true) :
+    token (renderTok t ++ rest) p = .ok (some (t, rest, advs (renderTok t) p)) := by
+  have hfol : ∀ {t : Token}, t ≠ .unquote → followOK t rest = true → selfDelimiting t = false →
+      (startsDelim rest = true ∨ (sharpTok t = true ∧ startsSharp rest = true)) := by
+    intro t ht hf hsd
+    unfold followOK at hf
+    split at hf
+    · exact absurd rfl ht
+    · simpa [hsd] using hf
+  cases t with
+  | lparen => exact token_lparen _ _
+  | rparen => exact token_rparen _ _
+  | vecIntro => exact token_vecIntro _ _
+  | byteVecIntro => exact token_byteVecIntro _ _
+  | quote => exact token_quote _ _
+  | quasiquote => exact token_quasiquote _ _
+  | unquoteSplicing => exact token_unquoteSplicing _ _
+  | unquote =>
+    simp only [followOK, Bool.and_eq_true, Bool.not_eq_true', bne_iff_ne, ne_eq] at hf
+    cases rest with
+    | nil => simp at hf
+    | cons c r =>
+      have : c ≠ '@' := by intro e; subst e; simp at hf
+      exact token_unquote c r p this
+  | period =>
+    rcases hfol (by simp) hf rfl with h | h
+    · exact token_period _ _ h
+    · simp [sharpTok] at h
+  | ident s =>
+    simp only [renderTok]
+    split
+    · rename_i hp
+      rcases hfol (by simp) hf (by simp [selfDelimiting, hp]) with h | h
+      · have := token_plainIdent s.toList rest p hp h
+        simpa using this
+      · simp [sharpTok] at h
+    · rename_i hp
+      have hb : '|' ∉ s.toList := by
+        rcases hs with h | h
+        · exact absurd h hp
+        · exact h
+      have := token_quoted s.toList rest p hb
+      simpa using this
+  | prim pr =>
+    cases pr with
+    | str s =>
+      have := token_string (s.toList.map canonPiece) rest p
+        (by intro x hx; obtain ⟨c, -, rfl⟩ := List.mem_map.mp hx; exact canonPiece_valid c)
+      rw [canonPiece_char] at this
+      simpa [renderTok, showStr] using this
+    | chr c =>
+      rcases hfol (by simp) hf rfl with h | h
+      · exact token_char c rest p (Or.inl h)
+      · exact token_char c rest p (Or.inr h.2)
+    | bool b =>
+      rcases hfol (by simp) hf rfl with h | h
+      · exact token_bool b rest p (Or.inl h)
+      · exact token_bool b rest p (Or.inr h.2)
+    | int i =>
+      rcases hfol (by simp) hf rfl with h | h
+      · exact token_int i rest p hs h
+      · simp [sharpTok] at h
+    | rat n d =>
+      rcases hfol (by simp) hf rfl with h | h
+      · have := token_rat n d rest p hs.1 hs.2.1 hs.2.2 h
+        simpa [renderTok] using this
+      · simp [sharpTok] at h
+    | real tx =>
+      rcases hfol (by simp) hf rfl with h | h
+      · obtain ⟨r, hr, rfl⟩ := hs
+        have := token_real r rest p hr h
+        simpa [renderTok] using this
+      · simp [sharpTok] at h
+
 end Ruschm.Text
